@@ -196,8 +196,8 @@ def main(argv):
                 canaries["expected"] += 1
                 if oid in r["cls"]["failed"]:
                     canaries["rejected"] += 1
-                elif oid in r["cls"]["rlimit"]:
-                    canaries["rejected"] += 1  # could not prove false within the limit: not vacuous
+                elif oid in r["cls"]["rlimit"] or (base + ".body") in r["cls"]["rlimit"] or any(k.startswith(base + ".") for k in r["cls"]["rlimit"]):
+                    canaries["rejected"] += 1  # could not prove false within the limit (reported on the function as a whole): not vacuous
                 else:
                     canaries["vacuous"].append(oid)
     for v in canaries["vacuous"]:
